@@ -1,10 +1,10 @@
 CONSTANT Writers = {1, 2, 3}
 CONSTANT WriterSets <- W2or3
-CONSTANT InitLens = {0, 1, 2}
-CONSTANT InitTombs = {FALSE, TRUE}
+CONSTANT InitLens = {1}
+CONSTANT InitTombs = {FALSE}
 CONSTANT Modes = {FALSE, TRUE}
-CONSTANT AheadSets <- NoAhead
-CONSTANT Kinds = {"put", "push", "del"}
+CONSTANT AheadSets <- Ahead1
+CONSTANT Kinds = {"put"}
 SPECIFICATION Spec
 VIEW view
 INVARIANT X_NoLostAck
